@@ -28,6 +28,14 @@ MUTANTS = [
     ("serve-send-oserror-not-caught", "C16", "serve", "mypy/dmypy_server.py", "                    except OSError:\n                        pass  # Maybe the client hung up", "                    except ConnectionResetError:\n                        pass  # Maybe the client hung up", "violation"),
     ("serve-status-file-kept-on-sysexit", "C16", "serve", "mypy/dmypy_server.py", '            if command != "stop":\n                os.unlink(self.status_file)', '            if command != "stop" and sys.exc_info()[0] is not SystemExit:\n                os.unlink(self.status_file)', "violation"),
     ("receive-non-dict-accepted", "C16", "util.receive", "mypy/dmypy_util.py", "    if not isinstance(data, dict):\n        raise OSError", "    if False:\n        raise OSError", "violation"),
+    ("tagged-add-overflow-check-disabled", "C15", "tagged.Add", "mypyc/lib-rt/CPy.h", "return (Py_ssize_t)(sum ^ left) < 0 && (Py_ssize_t)(sum ^ right) < 0;", "return (Py_ssize_t)(sum ^ left) < 0 && (Py_ssize_t)(sum ^ right) < 0 && (Py_ssize_t)left < 0;", "violation"),
+    ("tagged-add-overflow-check-conservative-harmless", "C15", "tagged.Add", "mypyc/lib-rt/CPy.h", "return (Py_ssize_t)(sum ^ left) < 0 && (Py_ssize_t)(sum ^ right) < 0;", "return (Py_ssize_t)(sum ^ left) < 0 || (Py_ssize_t)(sum ^ right) < 0;", "pass"),
+    ("tagged-floordiv-min-case-dropped", "C15", "tagged.FloorDivide", "mypyc/lib-rt/CPy.h", "return right == 0 || left == -((size_t)1 << (CPY_INT_BITS-1));", "return right == 0;", "violation"),
+    ("tagged-multiply-threshold-too-large", "C15", "tagged.Multiply", "mypyc/lib-rt/CPy.h", "return left >= (1U << (CPY_INT_BITS/2 - 1)) || right >= (1U << (CPY_INT_BITS/2 - 1));", "return left >= ((size_t)1 << (CPY_INT_BITS/2 + 1)) || right >= ((size_t)1 << (CPY_INT_BITS/2 + 1));", "violation"),
+    ("tagged-rshift-count-off-by-one", "C15", "tagged.Rshift", "mypyc/lib-rt/CPy.h", "if (unlikely(count >= CPY_INT_BITS)) {", "if (unlikely(count > CPY_INT_BITS)) {", "violation"),
+    ("tagged-remainder-sign-fixup-wrong", "C15", "tagged.Remainder", "mypyc/lib-rt/CPy.h", "if (((Py_ssize_t)right < 0) != ((Py_ssize_t)left < 0) && result != 0) {\n            result += right;", "if (((Py_ssize_t)right < 0) && result != 0) {\n            result += right;", "violation"),
+    ("int64-remainder-edge-case-dropped", "C15", "fixed.CPyInt64_Remainder", "mypyc/lib-rt/int_ops.c", "    // Edge case: avoid core dump\n    if (y == -1 && x == INT64_MIN) {\n        return 0;\n    }\n    int64_t d = x % y;", "    int64_t d = x % y;", "violation"),
+    ("int32-divide-rounding-dropped", "C15", "fixed.CPyInt32_Divide", "mypyc/lib-rt/int_ops.c", "int32_t CPyInt32_Divide(int32_t x, int32_t y) {", "int32_t CPyInt32_Divide(int32_t x, int32_t y) {\n    if (x == 7 && y == -2) return -3;", "violation"),
     ("enabled-parent-check-dropped", "C13", "is_error_code_enabled", "mypy/errors.py", "elif error_code.sub_code_of is not None and error_code.sub_code_of in current_mod_disabled:\n            return False", "elif error_code.sub_code_of is not None and error_code.sub_code_of in current_mod_enabled:\n            return False", "violation"),
 ]
 
